@@ -5,6 +5,7 @@
 package ops
 
 import (
+	"context"
 	"fmt"
 	"runtime/debug"
 	"sort"
@@ -62,6 +63,7 @@ const (
 	ParserStrict
 	ParserPooledOptions
 	ParserPositions
+	ParseCtxCancelled
 	NKinds
 )
 
@@ -70,7 +72,7 @@ var names = [...]string{"tokenize-direct", "tokenize-pooled", "gosqlx.Parse", "g
 	"parser.ValidateBytes", "parser.ParseBytesWithTokens", "parser.ParseWithDialect", "AST.SQL+Format", "formatter.Format",
 	"gosqlx.Extract*", "security.ScanSQL", "security.Scan", "linter.LintString", "errors.SuggestKeyword", "observe-stats",
 	"monitor.Record*", "ast.SetSpan/GetSpan", "Parser(strict).ParseFromModelTokens", "GetParser+ApplyOptions+Parse+PutParser",
-	"Parser.ParseFromModelTokensWithPositions"}
+	"Parser.ParseFromModelTokensWithPositions", "gosqlx.ParseWithContext(cancelled at poll k)"}
 
 func (k Kind) String() string { return names[k] }
 
@@ -320,6 +322,11 @@ func (o Op) Exec(hold bool) (res string, held []Held) {
 		}
 		_ = monitor.GetMetrics()
 		res = "monitored"
+	case ParseCtxCancelled:
+		// Flag and the input length pick the poll at which the context turns done
+		a, err := gosqlx.ParseWithContext(simctx.New(1+(o.Flag*5+len(o.SQL))%14, context.Canceled), o.SQL)
+		res = treeCanon(a, err)
+		keepTree(a)
 	case ParserStrict, ParserPooledOptions, ParserPositions:
 		t, _ := tokenizer.New()
 		toks, terr := t.Tokenize([]byte(o.SQL))
